@@ -408,12 +408,12 @@ FREEZE = Contract(
         # every component is carried over (also a loss element whose value is 0), one for one and in order, as a new object
         "one_for_one": _SHAPE + " and " + " and ".join(f"fresh_ref(result[{i}])" for i in range(5)),
         # parameters are replaced by the value they hold at this moment; plain values and modes are kept
-        "values_of_the_moment": "implies(" + _SHAPE + ", result[0].phi == circuit_spec[0].phi._Parameter__value and result[1].loss == circuit_spec[1].loss._Parameter__value and "
-                                "result[2].reflectivity == circuit_spec[2].reflectivity._Parameter__value and result[3].phi == circuit_spec[3].phi)",
+        "values_of_the_moment": "implies(" + _SHAPE + ", result[0].phi == old(circuit_spec[0].phi._Parameter__value) and result[1].loss == old(circuit_spec[1].loss._Parameter__value) and "
+                                "result[2].reflectivity == old(circuit_spec[2].reflectivity._Parameter__value) and result[3].phi == circuit_spec[3].phi)",
         "modes_kept": "implies(" + _SHAPE + ", result[0].mode == circuit_spec[0].mode and result[1].mode == circuit_spec[1].mode and result[2].mode_1 == circuit_spec[2].mode_1 and "
                       "result[2].mode_2 == circuit_spec[2].mode_2 and result[2].convention == circuit_spec[2].convention and result[4].mode_1 == circuit_spec[4].mode_1)",
-        "inside_groups_too": "implies(" + _SHAPE + ", len(result[4].circuit_spec) == 2 and fresh_ref(result[4].circuit_spec) and result[4].circuit_spec[0].phi == circuit_spec[4].circuit_spec[0].phi._Parameter__value and "
-                             "result[4].circuit_spec[1].loss == circuit_spec[4].circuit_spec[1].loss._Parameter__value)",
+        "inside_groups_too": "implies(" + _SHAPE + ", len(result[4].circuit_spec) == 2 and fresh_ref(result[4].circuit_spec) and result[4].circuit_spec[0].phi == old(circuit_spec[4].circuit_spec[0].phi._Parameter__value) and "
+                             "result[4].circuit_spec[1].loss == old(circuit_spec[4].circuit_spec[1].loss._Parameter__value))",
         # the spec that was passed in still holds its Parameter objects
         "argument_keeps_its_parameters": "isinstance(circuit_spec[0].phi, Parameter) and isinstance(circuit_spec[1].loss, Parameter) and isinstance(circuit_spec[2].reflectivity, Parameter) and "
                                          "isinstance(circuit_spec[4].circuit_spec[0].phi, Parameter) and len(circuit_spec[4].circuit_spec) == 2",
@@ -507,9 +507,9 @@ COPY = Contract(
                                     "and isinstance(result.__circuit_spec[2], Group) and result.__circuit_spec[0].mode == self.__circuit_spec[0].mode and "
                                     "result.__circuit_spec[1].mode_1 == self.__circuit_spec[1].mode_1 and result.__circuit_spec[1].mode_2 == self.__circuit_spec[1].mode_2",
         # a plain copy stays bound to the same Parameter objects (they are live); a frozen copy holds the values of this moment and no Parameter
-        "frozen_values_of_the_moment": "implies(freeze_parameters, result.__circuit_spec[0].phi == self.__circuit_spec[0].phi._Parameter__value and "
-                                       "result.__circuit_spec[1].reflectivity == self.__circuit_spec[1].reflectivity._Parameter__value and "
-                                       "result.__circuit_spec[2].circuit_spec[0].loss == self.__circuit_spec[2].circuit_spec[0].loss._Parameter__value)",
+        "frozen_values_of_the_moment": "implies(freeze_parameters, result.__circuit_spec[0].phi == old(self.__circuit_spec[0].phi._Parameter__value) and "
+                                       "result.__circuit_spec[1].reflectivity == old(self.__circuit_spec[1].reflectivity._Parameter__value) and "
+                                       "result.__circuit_spec[2].circuit_spec[0].loss == old(self.__circuit_spec[2].circuit_spec[0].loss._Parameter__value))",
         "plain_copy_keeps_the_parameter_objects": "implies(not freeze_parameters, result.__circuit_spec[0].phi is self.__circuit_spec[0].phi and "
                                                   "result.__circuit_spec[1].reflectivity is self.__circuit_spec[1].reflectivity)",
         "original_unchanged": "len(self.__circuit_spec) == 3 and isinstance(self.__circuit_spec[0].phi, Parameter) and isinstance(self.__circuit_spec[2].circuit_spec[0].loss, Parameter)",
